@@ -218,6 +218,59 @@ def compare(ctx, name, d):
     return res
 
 
+def _fail_keys(res, props, kinds=None):
+    """the failures of a harness run that belong to `props`, as comparable keys (property, class, kind)."""
+    keys = set()
+    for c in res["corr_bad"]:
+        if c[0] in props:
+            keys.add((c[0], "corr", c[1].split(" ", 1)[0]))
+    known = [k for k in load_known() if k.get("status") == "known"]
+    for g in (res["meta"].get("gofails") or []):
+        if g["property"] in props and (kinds is None or g["kind"] in kinds):
+            sig = f"{g['property']} {g['kind']} {g['detail']}"
+            if any(k.get("property") == g["property"] and re.search(k["match"], sig) for k in known):
+                continue  # a recorded finding: reported as such, nothing to re-measure
+            keys.add((g["property"], "go", g["kind"]))
+    return keys
+
+
+def run_realtime(ctx, name, binary, args, props, attempts=3, kinds=None, timeout=3000):
+    """a harness whose oracles compare against the wall clock: a failure counts only if the same kind of failure
+    shows up in every one of `attempts` runs of the same seed (a defect in the code is there every time; a late
+    goroutine on a loaded machine is not). What was discarded is written into the evidence notes."""
+    res = run_harness(ctx, name, binary, args, timeout=timeout)
+    if res is None:
+        return None
+    keys = _fail_keys(res, props, kinds)
+    tries = 1
+    while keys and tries < attempts:
+        again = run_harness(ctx, f"{name}-retry{tries}", binary, args, timeout=timeout)
+        tries += 1
+        if again is None:
+            break
+        keys2 = _fail_keys(again, props, kinds)
+        dropped = keys - keys2
+        if dropped:
+            ctx.notes.append(f"real-time harness {name}: {sorted(dropped)} reported by one attempt, not reproduced by the next run of the same seed: treated as timing noise")
+        keys &= keys2
+        res = again
+    # keep only the persistent wall-clock failures (and every failure of a kind that is not wall-clock)
+    def keep_corr(c):
+        return c[0] not in props or (c[0], "corr", c[1].split(" ", 1)[0]) in keys
+    def keep_go(g):
+        if g["property"] not in props:
+            return True
+        if kinds is not None and g["kind"] not in kinds:
+            return True
+        sig = f"{g['property']} {g['kind']} {g['detail']}"
+        if any(k.get("property") == g["property"] and k.get("status") == "known" and re.search(k["match"], sig) for k in load_known()):
+            return True
+        return (g["property"], "go", g["kind"]) in keys
+    res["corr_bad"] = [c for c in res["corr_bad"] if keep_corr(c)]
+    res["meta"]["gofails"] = [g for g in (res["meta"].get("gofails") or []) if keep_go(g)]
+    return res
+
+
 def fold(ctx, res, props, corr_name):
     """turn a comparison result into obligations / violations for the properties in `props`."""
     if res is None:
